@@ -7,8 +7,8 @@
 //! (NOTHING of falcon's own validators / executor is used: widths are recomputed by `ebits`, guards are evaluated by
 //! `eval`):
 //!   (1) panic            the call panicked (message + location reported);
-//!   (2) timeout          the call did not return within the time budget (watchdog thread; the process then prints what
-//!                        it has and exits);
+//!   (2) timeout          the call did not return within the time budget (60 s, thorough 120 s) while the other workers
+//!                        made progress (watchdog thread; the process then prints what it has and exits);
 //!   (3) Err is fine; Ok(result): every per-instruction graph must be well formed:
 //!         expr_width     an expression violates a width rule (binary operands of equal width, comparison = 1 bit,
 //!                        zext / sext strictly widen, trun strictly narrows to >= 1 bit, ite condition 1 bit and equal
@@ -33,6 +33,10 @@
 //!       (temporaries included);
 //!   (5b) policy_dependence: a block that lifts under the error policy (so it holds no unsupported instruction) renders
 //!       differently under the intrinsics policy;
+//!   (5c) policy_ignored: an Ok result under the ERROR policy holds an Intrinsic whose mnemonic is not one of the few
+//!       instructions the lifter deliberately models as intrinsics (x86: int syscall sysenter ud2; MIPS: IntegerOverflow
+//!       break rdhwr syscall trap; PPC, A64: none) - Options documents that by default an instruction without semantics
+//!       is an error (`INTRINSIC_MNEMONICS` below has to follow the lifters when they model a new instruction that way);
 //!   (6) fallthrough_wrap: an Ok result at an address so high that `address + length` exceeds 2^64 and whose successor
 //!       list contains the WRAPPED sum (the lifter's own `address + offset` arithmetic overflowed: a panic in builds
 //!       with overflow checks - cargo test / debug - and a silent wrap in release builds such as this one). Results
@@ -350,6 +354,15 @@ fn check_graph(g: &ControlFlowGraph, tag: &str, seed: u64, out: &mut Vec<Finding
     }
 }
 
+/// mnemonics of the Intrinsics the lifters build for SUPPORTED instructions (lib/translator/*/semantics.rs)
+fn intrinsic_mnemonics(isa: Isa) -> &'static [&'static str] {
+    match isa {
+        Isa::X86 | Isa::Amd64 => &["int", "syscall", "sysenter", "ud2"],
+        Isa::MipsBe | Isa::MipsLe => &["IntegerOverflow", "break", "rdhwr", "syscall", "trap"],
+        Isa::Ppc | Isa::A64 => &[],
+    }
+}
+
 /// zero-displacement unconditional jumps (their target, computed by the decoder, IS the next address)
 fn ends_in_jump_to_next(isa: Isa, bytes: &[u8], res: &BlockTranslationResult) -> bool {
     let n = res.length().min(bytes.len());
@@ -385,7 +398,8 @@ fn check_result(tr: &Tr, bytes: &[u8], address: u64, res: &BlockTranslationResul
 }
 
 // ------------------------------------------------------------------------------------------------ one evaluation
-struct Watch { slots: Vec<Mutex<Option<(Instant, String)>>> }
+/// per worker: (start of the call in flight, number of jobs all workers had finished at that moment, report line)
+struct Watch { slots: Vec<Mutex<Option<(Instant, u64, String)>>>, jobs_done: AtomicU64 }
 
 #[derive(Default)]
 struct Stats { calls: u64, ok: u64, err: u64, panics: u64, instrs: u64 }
@@ -409,6 +423,19 @@ fn run_one_r(tr: &Tr, policy: bool, opts: &Options, bytes: &[u8], address: u64, 
             stats.ok += 1;
             stats.instrs += res.instructions().len() as u64;
             check_result(tr, bytes, address, &res, seed, &mut out);
+            if !policy {
+                for (a, g) in res.instructions() {
+                    for b in g.blocks() {
+                        for i in b.instructions() {
+                            if let Operation::Intrinsic { intrinsic } = i.operation() {
+                                if !intrinsic_mnemonics(tr.isa).contains(&intrinsic.mnemonic()) {
+                                    out.push(("policy_ignored", format!("error policy, yet the instruction at {:#x} is lifted to the intrinsic `{}`", a, intrinsic.instruction_str())));
+                                }
+                            }
+                        }
+                    }
+                }
+            }
             if check_det {
                 let mine = format!("{:?}", res);
                 let again = catch_unwind(AssertUnwindSafe(|| tr.t.translate_block(bytes, address, opts)));
@@ -421,7 +448,6 @@ fn run_one_r(tr: &Tr, policy: bool, opts: &Options, bytes: &[u8], address: u64, 
             }
         }
     }
-    let _ = policy;
     out
 }
 
@@ -774,7 +800,9 @@ fn main() {
     }).unwrap_or(0xC05);
     let nthreads: usize = std::env::var("VERIF_THREADS").ok().and_then(|s| s.parse().ok()).unwrap_or(4).max(1);
     let only: Option<String> = std::env::var("C05_ONLY").ok(); // development aid: restrict to one translator name
-    let budget = Duration::from_secs(if thorough { 30 } else { 10 });
+    // a call is reported as not returning when it has been in flight for longer than the budget WHILE the other workers
+    // finished >= 2000 jobs (or no other worker is active): a stall of the whole machine is not a hang of the lifter
+    let budget = Duration::from_secs(if thorough { 120 } else { 60 });
 
     std::panic::set_hook(Box::new(|info| {
         let loc = info.location().map(|l| format!("{}:{}", l.file(), l.line())).unwrap_or_default();
@@ -798,7 +826,7 @@ fn main() {
     let next = Arc::new(AtomicUsize::new(0)); // next chunk
     const CHUNK: u64 = 256;
     let nchunks = ((total + CHUNK - 1) / CHUNK) as usize;
-    let watch = Arc::new(Watch { slots: (0..nthreads).map(|_| Mutex::new(None)).collect() });
+    let watch = Arc::new(Watch { slots: (0..nthreads).map(|_| Mutex::new(None)).collect(), jobs_done: AtomicU64::new(0) });
     let hits: Arc<Mutex<Vec<Hit>>> = Arc::new(Mutex::new(Vec::new()));
     let counts: Arc<Mutex<BTreeMap<String, u64>>> = Arc::new(Mutex::new(BTreeMap::new()));
     let sigs: Arc<Mutex<BTreeMap<String, u64>>> = Arc::new(Mutex::new(BTreeMap::new()));
@@ -829,7 +857,7 @@ fn main() {
                     let mut render: Option<String> = None;
                     for (pi, o) in opts.iter().enumerate() {
                         let policy = pi == 1;
-                        *watch.slots[wi].lock().unwrap() = Some((Instant::now(), format!("{{\"witness\":true,\"op\":\"{}.timeout\",\"policy\":\"{}\",\"bytes\":\"{}\",\"address\":\"{:#x}\",\"family\":\"{}\"}}", tr.name, if policy { "intrinsics" } else { "error" }, hex(&bytes), address, f.name)));
+                        *watch.slots[wi].lock().unwrap() = Some((Instant::now(), watch.jobs_done.load(Ordering::Relaxed), format!("{{\"witness\":true,\"op\":\"{}.timeout\",\"policy\":\"{}\",\"bytes\":\"{}\",\"address\":\"{:#x}\",\"family\":\"{}\"}}", tr.name, if policy { "intrinsics" } else { "error" }, hex(&bytes), address, f.name)));
                         let st = local_stats.entry(format!("{}.{}", tr.name, if policy { "intrinsics" } else { "error" })).or_default();
                         // determinism: every Ok result of the small families, one in four of the large ones
                         let det = f.len < 100_000 || job % 4 == 0;
@@ -847,6 +875,7 @@ fn main() {
                             }
                         }
                     }
+                    watch.jobs_done.fetch_add(1, Ordering::Relaxed);
                 }
                 evals.fetch_add((hi - lo) * 2, Ordering::Relaxed);
             }
@@ -869,9 +898,11 @@ fn main() {
         std::thread::spawn(move || {
             while !done.load(Ordering::SeqCst) {
                 std::thread::sleep(Duration::from_millis(200));
+                let active = watch.slots.iter().filter(|s| s.lock().unwrap().is_some()).count();
+                let done_now = watch.jobs_done.load(Ordering::Relaxed);
                 for s in &watch.slots {
-                    if let Some((t, line)) = &*s.lock().unwrap() {
-                        if t.elapsed() > budget {
+                    if let Some((t, d0, line)) = &*s.lock().unwrap() {
+                        if t.elapsed() > budget && (done_now - d0 >= 2000 || active <= 1) {
                             println!("{}", line);
                             timed_out.store(true, Ordering::SeqCst);
                         }
